@@ -336,8 +336,8 @@ func (c14Engine) Gen(g *Gen) {
 		// an illegal name on every generator kind, plain and template (whose template renders fine)
 		for _, k := range []string{"file", "app", "inj"} {
 			for _, tpl := range []bool{false, true} {
-				for _, nm := range []string{"/abs", "../up", "."} {
-					if k == "file" && !tpl && nm != "." {
+				for _, nm := range []string{"/abs", "../up", ".", "gen/../../outside.gen", "gen/..", "./", "./../x.gen", ""} {
+					if k == "file" && !tpl && (nm == "/abs" || nm == "../up") {
 						continue // already above
 					}
 					a := mk(k, nm, "x")
